@@ -16,6 +16,7 @@ import Verif.Lemmas.StateCacheWitness
 import Verif.Lemmas.StateCacheBound
 import Verif.Lemmas.StateCacheDrop
 import Verif.Lemmas.StateCacheLink
+import Verif.Lemmas.StateCachePublish
 namespace Verif.Props.C06
 open Verif.SC
 
@@ -155,6 +156,34 @@ example : ((Sys.new 200 2 : Sys Nat Nat Nat Nat).run linkHistory).1.sc.entryEv =
     0 < ((Sys.new 200 2 : Sys Nat Nat Nat Nat).run linkHistory).1.sc.evictions ∧
     NoRecommit (Sys.new 200 2 : Sys Nat Nat Nat Nat) [] linkHistory := by
   refine ⟨by decide, by decide, by decide⟩
+
+/-! ### the maxHisDepth boundary -/
+
+/-- `found_at_max_depth`: on a cache satisfying the invariant (what `memo_sound` establishes after any history without
+    eviction), a value written exactly `maxDepth` parent steps up the chain — the largest depth the walk visits — is
+    found, as is any value nearer (`n ≤ maxDepth`), provided the lookup itself evicts nothing. -/
+theorem found_at_max_depth {T : Tree K B V} (sc : SC K B V) (hI : Inv sc T none) {k : K} {d b : B} {x : Blk K B V} {v : V}
+    {n : Nat} (hwalk : WalkN T k n d b) (hn : n ≤ sc.maxDepth) (hx : T.find b = some x)
+    (hw : alookup x.writes k = some (.val v)) (hev : (sc.get k d).1.evictions = sc.evictions) :
+    (sc.get k d).2 = some v :=
+  SC.get_complete sc hI hwalk hn hx hw hev
+
+/-- `miss_beyond_max_depth`: if the first `maxDepth + 1` blocks of `d`'s chain (depths 0 … maxDepth) are committed and the
+    cache holds no entry of `k` at any of them, the lookup misses — a value `maxDepth + 1` or more steps up is never
+    reached, and nothing else is returned in its place. -/
+theorem miss_beyond_max_depth {T : Tree K B V} (sc : SC K B V) (hI : Inv sc T none) {k : K} {d : B}
+    (hne : NoEntryN sc T k (sc.maxDepth + 1) d) (hev : (sc.get k d).1.evictions = sc.evictions) :
+    (sc.get k d).2 = none :=
+  SC.get_cutoff sc hI hne hev
+
+/-- the boundary on a concrete chain with maxDepth = 3 (and a large link capacity is not available separately: the link
+    cache has the same capacity, so the chain is kept at 4 links by a lookup-free history): r writes k; c1 ← c2 ← c3 ← c4.
+    At c3 the value is 3 steps up: hit. At c4 it is 4 steps up: miss. A self-parent block s exercises the cut-off proper:
+    its chain never ends, the walk stops after maxDepth + 1 visits. -/
+example : ((Sys.new 200 3 : Sys Nat Nat Nat Nat).run
+    [.blk 0 10 0, .bset 0 0 7, .bcommit 0, .blk 1 11 10, .bcommit 1, .blk 2 12 11, .bcommit 2, .blk 3 13 12, .bcommit 3,
+     .sget 0 13, .blk 9 99 99, .bcommit 9, .sget 0 99]).2
+    = [.ok, .ok, .ok, .ok, .ok, .ok, .ok, .ok, .ok, .hit 7, .ok, .ok, .miss] := by decide
 
 /-- `fork_independent`: the answer for `(k, b)` only reads the blocks on `b`'s own ancestor chain — two trees that agree
     on those blocks give the same answer. -/
